@@ -70,12 +70,9 @@ def strat(tier):
     n = 14 if tier == 'quick' else 25
     return st.fixed_dictionaries({
         'sub': st.just('remap'),
-        'prog': st.one_of(st.lists(_instr(), min_size=1, max_size=n), st.lists(_instr(), min_size=1, max_size=n),
-                          st.lists(_instr(), min_size=1, max_size=n), st.lists(_instr(), min_size=1, max_size=n),
-                          st.lists(_instr(), min_size=1, max_size=n), st.lists(_instr(), min_size=1, max_size=n),
-                          st.lists(_instr(), min_size=1, max_size=n), st.lists(_instr(), min_size=1, max_size=n),
-                          st.tuples(st.lists(_instr(), min_size=1, max_size=6), _big_instr(), st.lists(_instr(), max_size=3)).map(
-                              lambda t: t[0] + [t[1]] + t[2])),
+        'prog': st.integers(0, 11).flatmap(lambda i: st.lists(_instr(), min_size=1, max_size=n) if i else
+                                           st.tuples(st.lists(_instr(), min_size=1, max_size=6), _big_instr(), st.lists(_instr(), max_size=3)).map(
+                                               lambda t: t[0] + [t[1]] + t[2])),
         'patches': st.lists(st.tuples(st.sampled_from(['append', 'setitem']), _ref, _ref, _ref).map(list), max_size=2),
         'root': _ref,
         'visit': st.one_of(st.none(), st.none(),
